@@ -156,8 +156,27 @@ def run(ctx):
                 break
     if batch:
         run_batch(ctx, batch)
+    if thorough:
+        # all graphs on 4 components, each requiring at most 2 of {c0..c3, p, zz}, two orders each
+        univ = [f"c{i}" for i in range(4)] + ["p", "zz"]
+        choices = [[]] + [[u] for u in univ] + [list(c) for c in itertools.combinations(univ, 2)]
+        perms4 = list(itertools.permutations(range(4)))
+        batch = []
+        for idx, combo in enumerate(itertools.product(choices, repeat=4)):
+            kinds = kinds_for(idx, 4)
+            for o in (perms4[idx % 24], perms4[(idx * 7 + 5) % 24]):
+                batch.append({"content": mk_content(list(combo), kinds, list(o)), "queries": QUERIES,
+                              "decl_seed": idx, "shape": "exh4"})
+            if len(batch) >= 8000:
+                run_batch(ctx, batch)
+                batch = []
+                if len(ctx.violations) > 20:
+                    break
+        if batch:
+            run_batch(ctx, batch)
+        ctx.extra_cov.setdefault("exhaustive_strata", []).append("all 22^4 graphs on 4 components with <=2 requirements each x 2 orders")
     ctx.exhaustive = False  # the sampled stratum below is not exhaustive
-    ctx.extra_cov["exhaustive_strata"] = ["all 32768 graphs on <=3 components" + (" x all 6 orders" if thorough else " x 2 orders (all 6 on 1/16)")]
+    ctx.extra_cov.setdefault("exhaustive_strata", []).insert(0, "all 32768 graphs on <=3 components" + (" x all 6 orders" if thorough else " x 2 orders (all 6 on 1/16)"))
     run_batch(ctx, sampled(ctx.rng, ctx.n(1500, 40000)))
 
 
